@@ -236,7 +236,7 @@ def register(reg):
                           ('value_offsets', Tup(*[Arr('int', 'uint32')] * depth)), ('missing', Arr('bool'))],
                          requires=req, ensures=ens, modifies=('result',),
                          loops={0: Loop(invariant=inv, var='i', prange_writes=('result',))},
-                         props=P, fuel=1))
+                         props=P + ('C17',), fuel=1))
 
     for d in (1, 2, 3):
         map_contract(d)
